@@ -377,10 +377,332 @@ fn return_twin_contract(n_locals: usize) {
     let mut vm = ManuallyDrop::new(VM { stack: st, globals: Vec::new(), frames: vec![Frame::new(rip, rbp), Frame::new(99, 2)], instructions: vec![0], ip: 99, bp: 2, gc: GC::new() });
     let constants = ManuallyDrop::new(Vec::new());
     let mut gc = new_gc();
-    let r = keep(if with_value { vm.verif_arm_return_value(&constants, &mut gc, last) } else { vm.verif_arm_return(&constants, &mut gc, last) });
+    let r = keep(if with_value { vm.verif_arm_returnvalue(&constants, &mut gc, last) } else { vm.verif_arm_return(&constants, &mut gc, last) });
     assert!(r.is_ok());
     assert!(vm.stack.len() == 3);
     assert!(word(vm.stack[0]) == word(c0) && word(vm.stack[1]) == word(c1));
     assert!(word(vm.stack[2]) == word(if with_value { res } else { Object::null() }));
     assert!(vm.frames.len() == 1 && vm.ip == rip && vm.bp == rbp);
+}
+
+// ------------------------------------------------------------------------------------------
+// C02 / C10 / C11  bounded twins of the remaining dispatch arms (real arm text compiled as methods, registry.TWINS).
+// Executable form of the Verus contracts of unit c02_arms on small machine states. Callees of the arms (operators,
+// builtins, index functions, constructors) are replaced by recorders: a twin checks WHICH callee gets WHICH
+// operands in WHICH order, what happens to the stack and to ip - not what the callee computes (C06/C13/C14).
+// ------------------------------------------------------------------------------------------
+static mut OP_CALLED: u8 = 255;
+static mut OP_LEFT: usize = 0;
+static mut OP_RIGHT: usize = 0;
+const MARKER: isize = 31337;
+macro_rules! op_recorder {
+    ($name:ident, $id:expr) => {
+        fn $name(l: Object, r: Object, _gc: &mut GC) -> Result<Object, Error> {
+            unsafe { OP_CALLED = $id; OP_LEFT = word(l); OP_RIGHT = word(r); }
+            Ok(Object::int(MARKER))
+        }
+    };
+}
+op_recorder!(rec_add, 0); op_recorder!(rec_sub, 1); op_recorder!(rec_mul, 2); op_recorder!(rec_div, 3); op_recorder!(rec_rem, 4);
+op_recorder!(rec_lt, 5); op_recorder!(rec_lte, 6); op_recorder!(rec_gt, 7); op_recorder!(rec_gte, 8); op_recorder!(rec_eq, 9);
+op_recorder!(rec_neq, 10); op_recorder!(rec_and, 11); op_recorder!(rec_or, 12);
+
+fn small_vm(stack: Vec<Object>, code: Vec<u8>, bp: u16) -> ManuallyDrop<VM> {
+    ManuallyDrop::new(VM { stack, globals: Vec::with_capacity(4), frames: vec![Frame::new(0, 0)], instructions: code, ip: 0, bp, gc: GC::new() })
+}
+fn stack3() -> (Vec<Object>, [Object; 3]) {
+    let e = [any_immediate(), any_immediate(), any_immediate()];
+    let mut st = Vec::with_capacity(8);
+    st.push(e[0]); st.push(e[1]); st.push(e[2]);
+    (st, e)
+}
+
+macro_rules! binop_twin {
+    ($name:ident, $arm:ident, $id:expr, $method:ident, $rec:ident) => {
+        /// generic operator arm: LEFT is the slot below the top, RIGHT the top; both are replaced by the one result;
+        /// the slot below is untouched; ip does not move
+        #[kani::proof]
+        #[kani::unwind(5)]
+        #[kani::stub(std::fmt::format, fmt_stub)]
+        #[kani::stub(Object::$method, $rec)]   // only the expected operator is a recorder: any other callee leaves OP_CALLED at 255
+        fn $name() {
+            let (st, e) = stack3();
+            let mut vm = small_vm(st, vec![0], 0);
+            let mut gc = new_gc();
+            unsafe { OP_CALLED = 255; }
+            let r = keep(vm.$arm(&mut gc));
+            assert!(r.is_ok());
+            assert!(unsafe { OP_CALLED } == $id && unsafe { OP_LEFT } == word(e[1]) && unsafe { OP_RIGHT } == word(e[2]));
+            assert!(vm.stack.len() == 2 && word(vm.stack[0]) == word(e[0]) && word(vm.stack[1]) == word(Object::int(MARKER)));
+            assert!(vm.ip == 0 && vm.bp == 0 && vm.frames.len() == 1);
+        }
+    };
+}
+binop_twin!(c02_twin_add, verif_arm_add, 0, add, rec_add); binop_twin!(c02_twin_subtract, verif_arm_subtract, 1, sub, rec_sub); binop_twin!(c02_twin_multiply, verif_arm_multiply, 2, mul, rec_mul);
+binop_twin!(c02_twin_divide, verif_arm_divide, 3, div, rec_div); binop_twin!(c02_twin_modulo, verif_arm_modulo, 4, rem, rec_rem); binop_twin!(c02_twin_lt, verif_arm_lt, 5, lt, rec_lt);
+binop_twin!(c02_twin_lte, verif_arm_lte, 6, lte, rec_lte); binop_twin!(c02_twin_gt, verif_arm_gt, 7, gt, rec_gt); binop_twin!(c02_twin_gte, verif_arm_gte, 8, gte, rec_gte);
+binop_twin!(c02_twin_eq, verif_arm_eq, 9, eq, rec_eq); binop_twin!(c02_twin_neq, verif_arm_neq, 10, neq, rec_neq); binop_twin!(c02_twin_and, verif_arm_and, 11, and, rec_and);
+binop_twin!(c02_twin_or, verif_arm_or, 12, or, rec_or);
+
+macro_rules! fused_twin {
+    ($name:ident, $arm:ident, $id:expr, $method:ident, $rec:ident) => {
+        /// fused arm: LEFT is the local slot named by the first 16-bit operand (relative to bp), RIGHT the constant
+        /// named by the second; the result is pushed; nothing is popped; ip advances by 4
+        #[kani::proof]
+        #[kani::unwind(5)]
+        #[kani::stub(std::fmt::format, fmt_stub)]
+        #[kani::stub(Object::$method, $rec)]   // only the expected operator is a recorder: any other callee leaves OP_CALLED at 255
+        fn $name() {
+            let (st, e) = stack3();
+            let li: u8 = kani::any();
+            let ci: u8 = kani::any();
+            kani::assume(li <= 1 && ci <= 1);
+            kani::cover!(li == 1 && ci == 1);
+            let k = [any_immediate(), any_immediate()];
+            let constants = ManuallyDrop::new(vec![k[0], k[1]]);
+            let mut vm = small_vm(st, vec![li, 0, ci, 0, 99], 1);
+            let mut gc = new_gc();
+            unsafe { OP_CALLED = 255; }
+            let r = keep(vm.$arm(&constants, &mut gc));
+            assert!(r.is_ok());
+            assert!(unsafe { OP_CALLED } == $id && unsafe { OP_LEFT } == word(e[1 + li as usize]) && unsafe { OP_RIGHT } == word(k[ci as usize]));
+            assert!(vm.stack.len() == 4 && word(vm.stack[0]) == word(e[0]) && word(vm.stack[1]) == word(e[1]) && word(vm.stack[2]) == word(e[2]));
+            assert!(word(vm.stack[3]) == word(Object::int(MARKER)));
+            assert!(vm.ip == 4 && vm.bp == 1);
+        }
+    };
+}
+fused_twin!(c10_twin_addlocalconst, verif_arm_addlocalconst, 0, add, rec_add); fused_twin!(c10_twin_subtractlocalconst, verif_arm_subtractlocalconst, 1, sub, rec_sub);
+fused_twin!(c10_twin_multiplylocalconst, verif_arm_multiplylocalconst, 2, mul, rec_mul); fused_twin!(c10_twin_dividelocalconst, verif_arm_dividelocalconst, 3, div, rec_div);
+fused_twin!(c10_twin_modulolocalconst, verif_arm_modulolocalconst, 4, rem, rec_rem); fused_twin!(c10_twin_ltlocalconst, verif_arm_ltlocalconst, 5, lt, rec_lt);
+fused_twin!(c10_twin_ltelocalconst, verif_arm_ltelocalconst, 6, lte, rec_lte); fused_twin!(c10_twin_gtlocalconst, verif_arm_gtlocalconst, 7, gt, rec_gt);
+fused_twin!(c10_twin_gtelocalconst, verif_arm_gtelocalconst, 8, gte, rec_gte); fused_twin!(c10_twin_eqlocalconst, verif_arm_eqlocalconst, 9, eq, rec_eq);
+fused_twin!(c10_twin_neqlocalconst, verif_arm_neqlocalconst, 10, neq, rec_neq);
+
+/// Const / GetLocal / SetLocal / GetGlobal / SetGlobal: loads and stores address exactly the slot named by the
+/// 16-bit operand (little endian); ip advances by 2; every other slot is untouched
+fn loads_stores_contract(which: u8) {
+    let (st, e) = stack3();
+    let idx: u8 = kani::any();
+    // SetLocal pops first: the compiler never addresses the popped slot itself (arm precondition bp + idx < len - 1)
+    kani::assume(idx <= if which == 2 { 0 } else { 1 });
+    kani::cover!(idx == 0);
+    let k = [any_immediate(), any_immediate()];
+    let g = [any_immediate(), any_immediate()];
+    let constants = ManuallyDrop::new(vec![k[0], k[1]]);
+    let mut vm = small_vm(st, vec![idx, 0, 99], 1);
+    vm.globals.push(g[0]);
+    if which != 4 { vm.globals.push(g[1]); }
+    let r = keep(match which {
+        0 => vm.verif_arm_const(&constants),
+        1 => vm.verif_arm_getlocal(),
+        2 => vm.verif_arm_setlocal(),
+        3 => vm.verif_arm_getglobal(),
+        _ => vm.verif_arm_setglobal(),
+    });
+    assert!(r.is_ok() && vm.ip == 2 && vm.bp == 1);
+    assert!(word(vm.stack[0]) == word(e[0]));
+    match which {
+        0 => assert!(vm.stack.len() == 4 && word(vm.stack[3]) == word(k[idx as usize]) && word(vm.stack[2]) == word(e[2])),
+        1 => assert!(vm.stack.len() == 4 && word(vm.stack[3]) == word(e[1 + idx as usize]) && word(vm.stack[2]) == word(e[2])),
+        2 => assert!(vm.stack.len() == 2 && word(vm.stack[1]) == word(e[2])),
+        3 => assert!(vm.stack.len() == 4 && word(vm.stack[3]) == word(g[idx as usize])),
+        _ => {
+            // globals had one entry: writing slot 1 extends the vector, slot 0 keeps its value unless it is the target
+            assert!(vm.stack.len() == 2 && vm.globals.len() == if idx == 1 { 2 } else { 1 });
+            assert!(word(vm.globals[idx as usize]) == word(e[2]));
+            if idx == 1 { assert!(word(vm.globals[0]) == word(g[0])); }
+        }
+    }
+}
+macro_rules! ls_twin { ($name:ident, $w:expr) => {
+    #[kani::proof]
+    #[kani::unwind(6)]
+    #[kani::stub(std::fmt::format, fmt_stub)]
+    fn $name() { loads_stores_contract($w); }
+}; }
+ls_twin!(c02_twin_const, 0); ls_twin!(c02_twin_getlocal, 1); ls_twin!(c02_twin_setlocal, 2); ls_twin!(c02_twin_getglobal, 3); ls_twin!(c02_twin_setglobal, 4);
+
+/// GetGlobal of a slot that has not been written yet: ReferenceError, never an out-of-bounds access
+#[kani::proof]
+#[kani::unwind(6)]
+#[kani::stub(std::fmt::format, fmt_stub)]
+fn c02_twin_getglobal_unset() {
+    let (st, _e) = stack3();
+    let n: usize = kani::any();
+    kani::assume(n <= 2);
+    let idx: u8 = kani::any();
+    kani::assume(idx as usize >= n && idx <= 3);
+    kani::cover!(idx as usize == n);
+    let mut vm = small_vm(st, vec![idx, 0, 99], 0);
+    if n >= 1 { vm.globals.push(Object::null()); }
+    if n >= 2 { vm.globals.push(Object::null()); }
+    let r = keep(vm.verif_arm_getglobal());
+    assert!(matches!(&*r, Err(Error::ReferenceError(_))));
+}
+
+/// Jump / JumpIfFalse / Pop / Null / True / False / Not: control goes exactly where the operand says; a
+/// non-boolean condition is a TypeError; Pop hands the popped value to the last-statement slot
+#[kani::proof]
+#[kani::unwind(6)]
+#[kani::stub(std::fmt::format, fmt_stub)]
+fn c11_twin_control() {
+    let (st, e) = stack3();
+    let (lo, hi): (u8, u8) = (kani::any(), kani::any());
+    let target = lo as usize + 256 * hi as usize;
+    let which: u8 = kani::any();
+    kani::assume(which <= 6);
+    kani::cover!(which == 1 && hi > 0);
+    let mut vm = small_vm(st, vec![lo, hi, 99], 0);
+    let mut last = Object::null();
+    let r = keep(match which {
+        0 => vm.verif_arm_jump(),
+        1 => vm.verif_arm_jumpiffalse(),
+        2 => vm.verif_arm_pop(&mut last),
+        3 => vm.verif_arm_null(),
+        4 => vm.verif_arm_true(),
+        5 => vm.verif_arm_false(),
+        _ => vm.verif_arm_not(),
+    });
+    assert!(word(vm.stack[0]) == word(e[0]) && word(vm.stack[1]) == word(e[1]));
+    match which {
+        0 => assert!(r.is_ok() && vm.ip == target && vm.stack.len() == 3),
+        1 => {
+            if e[2].tag() != Type::Bool { assert!(matches!(&*r, Err(Error::TypeError(_)))); }
+            else { assert!(r.is_ok() && vm.stack.len() == 2 && vm.ip == if e[2].as_bool() { 2 } else { target }); }
+        }
+        2 => assert!(r.is_ok() && vm.stack.len() == 2 && word(last) == word(e[2]) && vm.ip == 0),
+        3 => assert!(r.is_ok() && vm.stack.len() == 4 && word(vm.stack[3]) == word(Object::null())),
+        4 => assert!(r.is_ok() && vm.stack.len() == 4 && word(vm.stack[3]) == word(Object::bool(true))),
+        5 => assert!(r.is_ok() && vm.stack.len() == 4 && word(vm.stack[3]) == word(Object::bool(false))),
+        _ => {
+            if e[2].tag() != Type::Bool { assert!(matches!(&*r, Err(Error::TypeError(_)))); }
+            else { assert!(r.is_ok() && vm.stack.len() == 3 && word(vm.stack[2]) == word(Object::bool(!e[2].as_bool()))); }
+        }
+    }
+}
+
+/// Negate on integers: the exact negation, an error for the one value whose negation leaves the 61-bit range;
+/// non-numbers are a TypeError
+#[kani::proof]
+#[kani::unwind(6)]
+#[kani::stub(std::fmt::format, fmt_stub)]
+fn c06_twin_negate() {
+    let v = any_int();
+    let other = any_immediate();
+    let use_int: bool = kani::any();
+    kani::cover!(use_int && v == MIN_INT);
+    let top = if use_int { Object::int(v) } else { other };
+    let mut st = Vec::with_capacity(4);
+    st.push(Object::int(5)); st.push(top);
+    let mut vm = small_vm(st, vec![0], 0);
+    let mut gc = new_gc();
+    let r = keep(vm.verif_arm_negate(&mut gc));
+    if top.tag() == Type::Int {
+        let x = top.as_int();
+        if x == MIN_INT { assert!(r.is_err()); }
+        else { assert!(r.is_ok() && vm.stack.len() == 2 && vm.stack[1].tag() == Type::Int && vm.stack[1].as_int() == -x); }
+    } else {
+        assert!(matches!(&*r, Err(Error::TypeError(_))));
+    }
+    assert!(vm.stack[0].as_int() == 5);
+}
+
+static mut CALL_ARGS: [usize; 3] = [0; 3];
+static mut CALL_ARGC: usize = 99;
+static mut CALL_BUILTIN: u8 = 99;
+fn builtin_rec(b: Builtin, args: &[Object], _gc: &mut GC) -> Result<Object, Error> {
+    unsafe {
+        CALL_BUILTIN = b as u8;
+        CALL_ARGC = args.len();
+        let mut i = 0;
+        while i < args.len() && i < 3 { CALL_ARGS[i] = word(args[i]); i += 1; }
+    }
+    Ok(Object::int(MARKER))
+}
+/// CallBuiltin: pops exactly argc values and hands them to the builtin named by the byte IN CALL ORDER
+fn callbuiltin_contract(argc: u8) {
+    let (st, e) = stack3();
+    let b: u8 = kani::any();
+    kani::assume(b <= 6);
+    kani::cover!(b == 6);
+    let mut vm = small_vm(st, vec![b, argc, 99], 0);
+    let mut gc = new_gc();
+    unsafe { CALL_ARGC = 99; }
+    let r = keep(vm.verif_arm_callbuiltin(&mut gc));
+    assert!(r.is_ok() && vm.ip == 2);
+    assert!(unsafe { CALL_BUILTIN } == b && unsafe { CALL_ARGC } == argc as usize);
+    assert!(vm.stack.len() == 3 - argc as usize + 1);
+    assert!(word(vm.stack[vm.stack.len() - 1]) == word(Object::int(MARKER)));
+    let mut i = 0;
+    while i < argc as usize { assert!(unsafe { CALL_ARGS[i] } == word(e[3 - argc as usize + i])); i += 1; }
+    let mut j = 0;
+    while j < 3 - argc as usize { assert!(word(vm.stack[j]) == word(e[j])); j += 1; }
+}
+macro_rules! cb_twin { ($name:ident, $n:expr) => {
+    #[kani::proof]
+    #[kani::unwind(6)]
+    #[kani::stub(std::fmt::format, fmt_stub)]
+    #[kani::stub(builtins::call, builtin_rec)]
+    fn $name() { callbuiltin_contract($n); }
+}; }
+cb_twin!(c14_twin_callbuiltin_0, 0); cb_twin!(c14_twin_callbuiltin_1, 1); cb_twin!(c14_twin_callbuiltin_2, 2);
+
+static mut IDX_ARGS: [usize; 3] = [0; 3];
+fn index_get_rec(l: Object, i: Object, _gc: &mut GC) -> Result<Object, Error> { unsafe { IDX_ARGS = [word(l), word(i), 0]; } Ok(Object::int(MARKER)) }
+fn index_set_rec(l: Object, i: Object, v: Object) -> Result<Object, Error> { unsafe { IDX_ARGS = [word(l), word(i), word(v)]; } Ok(Object::int(MARKER)) }
+/// IndexGet / IndexSet: target below index (below value); operands replaced by the one result
+#[kani::proof]
+#[kani::unwind(6)]
+#[kani::stub(std::fmt::format, fmt_stub)]
+#[kani::stub(index_get, index_get_rec)]
+#[kani::stub(index_set, index_set_rec)]
+fn c13_twin_index_arms() {
+    let (st, e) = stack3();
+    let set: bool = kani::any();
+    let mut vm = small_vm(st, vec![0], 0);
+    let mut gc = new_gc();
+    let r = keep(if set { vm.verif_arm_indexset() } else { vm.verif_arm_indexget(&mut gc) });
+    assert!(r.is_ok());
+    if set {
+        assert!(unsafe { IDX_ARGS[0] } == word(e[0]) && unsafe { IDX_ARGS[1] } == word(e[1]) && unsafe { IDX_ARGS[2] } == word(e[2]) && vm.stack.len() == 1);
+    } else {
+        assert!(unsafe { IDX_ARGS[0] } == word(e[1]) && unsafe { IDX_ARGS[1] } == word(e[2]) && vm.stack.len() == 2 && word(vm.stack[0]) == word(e[0]));
+    }
+    assert!(word(vm.stack[vm.stack.len() - 1]) == word(Object::int(MARKER)));
+}
+
+/// Array: pops exactly `length` values and builds the array from them IN SOURCE ORDER
+#[kani::proof]
+#[kani::unwind(6)]
+#[kani::stub(std::fmt::format, fmt_stub)]
+#[kani::stub(GC::trace, trace_contract)]
+fn c13_twin_array_arm() {
+    let (st, e) = stack3();
+    let mut vm = small_vm(st, vec![2, 0, 99], 0);
+    let mut gc = new_gc();
+    let r = keep(vm.verif_arm_array(&mut gc));
+    assert!(r.is_ok() && vm.ip == 2 && vm.stack.len() == 2 && word(vm.stack[0]) == word(e[0]));
+    let a = vm.stack[1];
+    assert!(a.tag() == Type::Array && a.as_vec().len() == 2);
+    assert!(word(a.as_vec()[0]) == word(e[1]) && word(a.as_vec()[1]) == word(e[2]));
+}
+
+static mut UNTRACED: usize = 0;
+fn untrace_rec(_gc: &mut GC, o: Object) { unsafe { UNTRACED = word(o); } }
+/// Halt: the last statement's value is untraced (the collector stops managing it) and handed out
+#[kani::proof]
+#[kani::unwind(6)]
+#[kani::stub(std::fmt::format, fmt_stub)]
+#[kani::stub(GC::untrace, untrace_rec)]
+fn c03_twin_halt() {
+    let (st, _e) = stack3();
+    let last = any_immediate();
+    let mut vm = small_vm(st, vec![0], 0);
+    let mut gc = new_gc();
+    unsafe { UNTRACED = 1; }
+    let r = keep(vm.verif_arm_halt(&mut gc, last));
+    assert!(matches!(&*r, Ok(o) if word(*o) == word(last)));
+    assert!(unsafe { UNTRACED } == word(last));
+    assert!(vm.stack.len() == 3);
 }
